@@ -319,7 +319,9 @@ func c07State(rep *report.Report, w *c07World, ops []explore.Op, bodies [][]int,
 		}
 		var faults []c07Fault
 		// pre-commit actions: a failing one alone, before, after and between succeeding ones
-		faults = append(faults, c07Fault{kind: "none"}, c07Fault{kind: "precommit", pre: "F"}, c07Fault{kind: "precommit", pre: "FS"}, c07Fault{kind: "precommit", pre: "SF"}, c07Fault{kind: "precommit", pre: "SFS"})
+		faults = append(faults, c07Fault{kind: "none"}, c07Fault{kind: "precommit", pre: "F"}, c07Fault{kind: "precommit", pre: "FS"}, c07Fault{kind: "precommit", pre: "SF"}, c07Fault{kind: "precommit", pre: "SFS"},
+			// Q = a succeeding action that itself registers another succeeding action; f = a failing action that first registers a succeeding one
+			c07Fault{kind: "precommit", pre: "QF"}, c07Fault{kind: "precommit", pre: "f"}, c07Fault{kind: "precommit", pre: "fS"})
 		for j := 0; j <= len(body); j++ {
 			faults = append(faults, c07Fault{kind: "caller", callerAt: j})
 		}
@@ -380,9 +382,20 @@ func c07Run(rep *report.Report, w *c07World, h *c07Db, ops []explore.Op, body []
 		ctx.AddCommitAction(func() { atomic.AddInt64(&w.commitActs, 1) })
 		if f.kind == "precommit" {
 			for _, a := range f.pre {
-				if a == 'F' {
+				switch a {
+				case 'F':
 					ctx.AddPreCommitAction(func(boltz.MutateContext) error { return errBoom })
-				} else {
+				case 'f':
+					ctx.AddPreCommitAction(func(c boltz.MutateContext) error {
+						c.AddPreCommitAction(func(boltz.MutateContext) error { return nil })
+						return errBoom
+					})
+				case 'Q':
+					ctx.AddPreCommitAction(func(c boltz.MutateContext) error {
+						c.AddPreCommitAction(func(boltz.MutateContext) error { return nil })
+						return nil
+					})
+				default:
 					ctx.AddPreCommitAction(func(boltz.MutateContext) error { return nil })
 				}
 			}
